@@ -178,6 +178,8 @@ func (c *Ctx) declareFun(name, sig string) {
 	c.global("(declare-fun " + name + " " + sig + ")")
 }
 
+var guardedRe = regexp.MustCompile(`^\(assert \(=> ([A-Za-z_][A-Za-z0-9_]*![0-9]+) `)
+
 var symRe = regexp.MustCompile(`[A-Za-z_][A-Za-z0-9_]*![0-9]+`)
 
 func symsOf(t string) []string { return symRe.FindAllString(t, -1) }
@@ -201,21 +203,14 @@ func (c *Ctx) buildIndex() {
 		if l.def != "" {
 			c.defIdx[l.def] = append(c.defIdx[l.def], i)
 		} else if l.kind == 'a' {
-			// an assumption is relevant to every symbol it constrains, directly or through definitions
-			seen := map[string]bool{}
-			work := append([]string{}, l.syms...)
-			for len(work) > 0 {
-				s := work[len(work)-1]
-				work = work[:len(work)-1]
-				if seen[s] {
-					continue
-				}
-				seen[s] = true
-				c.useIdx(s, i)
-				for _, di := range c.defIdx[s] {
-					if c.bg[di].kind == 'e' {
-						work = append(work, c.bg[di].syms...)
-					}
+			// a guarded assumption (=> g P) is relevant exactly when its guard is on the goal's path; an unguarded one
+			// when it mentions a symbol of the cone. (Assumed contract clauses are emitted without auxiliary
+			// definitions, so their text mentions the constrained symbols directly.)
+			if m := guardedRe.FindStringSubmatch(l.text); m != nil {
+				c.useIdx(m[1], i)
+			} else {
+				for _, s := range l.syms {
+					c.useIdx(s, i)
 				}
 			}
 		}
@@ -227,10 +222,16 @@ func (c *Ctx) sliceIndexed(ndecl int, terms ...string) []string {
 	in := make([]bool, ndecl)
 	cone := map[string]bool{}
 	var work []string
+	why := os.Getenv("GOVC_WHY")
+	parent := map[string]string{}
+	cur := "goal"
 	push := func(s string) {
 		if !cone[s] {
 			cone[s] = true
 			work = append(work, s)
+			if why != "" {
+				parent[s] = cur
+			}
 		}
 	}
 	for _, t := range terms {
@@ -244,6 +245,7 @@ func (c *Ctx) sliceIndexed(ndecl int, terms ...string) []string {
 		for _, i := range c.defIdx[s] {
 			if i < ndecl && !in[i] {
 				in[i] = true
+				cur = s + " [def] " + c.bg[i].text
 				for _, t := range c.bg[i].syms {
 					push(t)
 				}
@@ -252,10 +254,21 @@ func (c *Ctx) sliceIndexed(ndecl int, terms ...string) []string {
 		for _, i := range c.uses[s] {
 			if i < ndecl && !in[i] {
 				in[i] = true
+				cur = s + " [assumption] " + c.bg[i].text
 				for _, t := range c.bg[i].syms {
 					push(t)
 				}
 			}
+		}
+	}
+	if why != "" && cone[why] {
+		for s := why; s != "" && s != "goal"; {
+			p := parent[s]
+			if len(p) > 260 {
+				p = p[:260]
+			}
+			fmt.Fprintln(os.Stderr, "WHY", s, "<-", p)
+			s = strings.SplitN(parent[s], " ", 2)[0]
 		}
 	}
 	var out []string
